@@ -142,14 +142,16 @@ def gen_cases(ctx):
             eps = T(a, C(0.0, 0.3), zc, C(0.0, -0.3), b, zc, zc, zc, c)
         elif k == 3:
             a, b, c = cv(), cv(), cv()
-            eps = T(T(a, zc, C(0.1, 0.0)), T(zc, b, zc), T(C(0.1, 0.0), zc, c))
+            # nested 3x3, NOT symmetric (gyrotropic off-diagonal pair + unequal real off-diagonals): row-major order matters
+            eps = T(T(a, C(0.0, 0.3), C(0.1, 0.0)), T(C(0.0, -0.3), b, zc), T(C(0.2, 0.0), zc, c))
         else:
             eps = rng.choice([C(0.0, 0.5), T(cv(), C(0.0, 1.0), cv()), T(C(1, 0), C(1, 0), zc, C(1, 0), C(1, 0), zc, zc, zc, C(2, 0.1))])   # singular real part
         ref = [["frequency", float(rng.uniform(1e14, 5e14)).hex()], ["wavelength", float(rng.uniform(4e-7, 2e-6)).hex()],
                ["reference", float(rng.uniform(4e-7, 2e-6)).hex(), "wavelength"], ["reference", float(rng.uniform(1e14, 5e14)).hex(), "frequency"]][i % 4]
         c = {"kind": "complex", "eps": eps, "ref": ref}
         if rng.random() < 0.4:
-            c["mu"] = rng.choice([C(1.0, 0.2), T(C(1, 0.1), C(2, 0), C(1, 0.3)), C(2.0, 0.0)])
+            c["mu"] = rng.choice([C(1.0, 0.2), T(C(1, 0.1), C(2, 0), C(1, 0.3)), C(2.0, 0.0),
+                                  T(T(C(1, 0.1), C(0.0, 0.2), zc), T(C(0.0, -0.2), C(2, 0), C(0.05, 0.0)), T(zc, zc, C(1, 0.3)))])
         cases.append(c)
     return cases
 
